@@ -223,7 +223,8 @@ AX = ["argmax", "argmin", "argsort", "all", "any", "count_nonzero"]
 BIN = ["floor_divide", "logical_and", "logical_or", "logical_xor", "allclose", "isclose", "array_equal", "array_equiv", "greater", "greater_equal",
        "less", "less_equal", "equal", "not_equal"]
 METHODS = ["x.argmax()", "x.argmin()", "x.argsort()", "x.all()", "x.any()", "x.nonzero()", "x.round()", "x.round(1)", "x.shape", "x.ndim", "x.size",
-           "x.dtype", "len(x)", "x > y", "x >= y", "x < y", "x <= y", "x == y", "x != y", "y > x", "bool(x[0] > 0.5)", "ab.isinstance(x, onp.ndarray)",
+           "x.dtype", "len(x)", "x > y", "x >= y", "x < y", "x <= y", "x == y", "x != y", "y > x", "y >= x", "y <= x", "y < x", "0.5 >= x", "0.5 <= x",
+           "x >= 0.5", "x <= 0.5", "bool(x[0] > 0.5)", "ab.isinstance(x, onp.ndarray)",
            "ab.isinstance(x, float)", "ab.type(x)", "x.argpartition(0)", "x.searchsorted(0.5)", "np.argpartition(x, 0)", "np.searchsorted(np.sort(x), 0.5)",
            "np.searchsorted(x, y)", "int(np.argmax(x))", "x.argmax(axis=0)", "np.round(x, 2)", "np.around(x, decimals=1)"]
 
@@ -239,6 +240,14 @@ def nograd_factory(quick, seed):
         n = int(onp.prod(shape))
         x = (onp.modf((onp.arange(n) + 1 + seed) * 0.6180339887)[0] * 4 - 2).reshape(shape)
         y = (onp.modf((onp.arange(n) + 2) * 0.7548776662)[0] * 4 - 2).reshape(shape)
+        if ch.flag("special_values"):
+            # NaN, infinities, signed zero and exact ties with the other operand: where "piecewise constant" is decided
+            sv = onp.array([onp.nan, onp.inf, -onp.inf, -0.0, 0.0, 1.0])
+            x = x.copy()
+            xf = x.reshape(-1)
+            for i_ in range(xf.size):
+                xf[i_] = sv[(i_ + (seed % 6)) % 6] if i_ % 2 == 0 else y.reshape(-1)[i_]
+            x = xf.reshape(shape)
         if kind == "unary":
             expr = "np.%s(x)" % ch.choose("fn", UN)
         elif kind == "axis":
@@ -258,7 +267,9 @@ def nograd_factory(quick, seed):
             raise Skip("single operand")
         ns_np = dict(np=onp, onp=onp, x=x, y=y, ab=_PlainBuiltins)
         try:
-            want = eval(expr, ns_np)
+            with warnings.catch_warnings(), onp.errstate(all="ignore"):
+                warnings.simplefilter("ignore")
+                want = eval(expr, ns_np)
         except Exception:
             raise Skip("NumPy rejects")
         got = {}
@@ -326,11 +337,11 @@ def _same(a, b):
     if isinstance(b, (tuple, list)):
         return isinstance(a, (tuple, list)) and len(a) == len(b) and all(_same(x, y) for x, y in zip(a, b))
     if isinstance(b, onp.ndarray):
-        return isinstance(a, onp.ndarray) and a.shape == b.shape and a.dtype == b.dtype and bool(onp.all(a == b))
+        return isinstance(a, onp.ndarray) and a.shape == b.shape and a.dtype == b.dtype and bool(onp.array_equal(a, b, equal_nan=(b.dtype.kind in "fc")))
     if isinstance(b, (type, onp.dtype)):
         return a == b
     try:
-        return type(a) == type(b) and bool(a == b)
+        return type(a) == type(b) and (bool(a == b) or (isinstance(b, (float, onp.floating)) and bool(onp.isnan(a)) and bool(onp.isnan(b))))
     except Exception:
         return False
 
